@@ -521,7 +521,13 @@ func termCandidate(P *Prover, h *ssa.BasicBlock, body map[*ssa.BasicBlock]bool, 
 		} else {
 			g = e.add(constP(1), 1).add(v, -1)
 		}
+		if P.trace {
+			fmt.Printf("TERM progress goal %s at b%d\n", P.show(g), h.Preds[i].Index)
+		}
 		if !P.ProveWith(g, h.Preds[i], P.edgeFacts(h.Preds[i], h)) {
+			if P.trace {
+				fmt.Printf("TERM progress FAILED budget left %d\n", P.budget)
+			}
 			return false, ""
 		}
 	}
